@@ -5,8 +5,19 @@ From BWP Require Import TextFacts Keys_proofs NoPanic_proofs.
 From Coq Require Import ZifyBool ZifyN ZifyNat.
 Arguments N.add : simpl never. Arguments N.eqb : simpl never.
 
-(* the hand-written table has exactly the registered suffixes, in the same order *)
+(* every registered suffix shares its parser object with a hand-listed suffix, so the derived
+   table has exactly the registered suffixes, in the same order *)
+Theorem every_class_known : forallb (fun kv => match class_family (snd kv) with Some _ => true | None => false end) ext_table = true.
+Proof. vm_compute. reflexivity. Qed.
 Theorem family_table_keys : map fst family_table = map fst ext_table.
+Proof. vm_compute. reflexivity. Qed.
+(* the hand-listed conventions are the ones the derived table assigns (no two hand-listed suffixes of
+   one parser object disagree), for every hand-listed suffix that is registered *)
+Theorem family_hand_consistent :
+  forallb (fun sf => match assoc (fst sf) ext_table with
+                     | None => true
+                     | Some _ => match assoc (fst sf) family_table with Some f => f =? snd sf | None => false end
+                     end) family_hand = true.
 Proof. vm_compute. reflexivity. Qed.
 
 (* suffixes that share a grammar (one parser object in language_parsers()) share a family *)
